@@ -102,6 +102,11 @@ def adversarial():
     out.append({"kind": "streams", "steps": [["sub", 1, "A", 2], ["quiesce"], ["clone", 1, 2], ["signal", "A", 1], ["allcredit"], ["quiesce"],
                                              ["dropstream", 2], ["quiesce"], ["signal", "A", 2], ["quiesce"]]})
     # unfiltered stream sees everything in order
+    # a later subscriber to an equal rule asks for a smaller queue while the earlier stream has a backlog
+    out.append({"kind": "streams", "steps": [["sub", 1, "A", 4], ["quiesce"], ["signal", "A", 1], ["signal", "A", 2], ["signal", "A", 3], ["quiesce"],
+                                             ["sub", 2, "A", 1], ["quiesce"], ["signal", "A", 4], ["quiesce"], ["allcredit"], ["quiesce"]]})
+    out.append({"kind": "streams", "steps": [["sub", 1, "A", 4], ["sub", 2, "B", 4], ["quiesce"], ["signal", "A", 1], ["signal", "B", 2], ["signal", "A", 3],
+                                             ["signal", "A", 4], ["quiesce"], ["sub", 3, "A", 2], ["sub", 4, "B", 1], ["quiesce"], ["allcredit"], ["quiesce"]]})
     out.append({"kind": "streams", "steps": [["sub", 1, None, 4], ["sub", 2, "A", 4], ["quiesce"], ["signal", "A", 1], ["signal", "B", 2], ["stray", 1, False], ["signal", "A", 3],
                                              ["allcredit"], ["quiesce"]]})
     # faults: between messages, mid-message (header / body), with calls pending, then new work fails promptly
